@@ -11,7 +11,7 @@ Open Scope list_scope.
 Inductive dep := DLib (id : bytes) | DRel (p : bytes) | DUri (u : bytes).
 Inductive kind :=
 | KLib (pkg : bytes) (bins : list bytes)     (* component buildpack with a Cargo.toml: root package name, bin targets *)
-| KComp (deps : list dep)                    (* composite buildpack with its package.toml dependencies *)
+| KComp (uri os : bytes) (deps : list dep)    (* composite buildpack: its package.toml's buildpack uri, platform os, dependencies *)
 | KOther.                                    (* component buildpack that is not a Rust project *)
 Record bp := mkBp { b_dir : bytes; b_id : bytes; b_kind : kind }.     (* b_dir: relative to the workspace root *)
 
@@ -38,7 +38,7 @@ Definition packable (x : bp) : bool := match b_kind x with KOther => false | _ =
 
 Definition lib_deps (x : bp) : list bytes :=
   match b_kind x with
-  | KComp deps => flat_map (fun d => match d with DLib id => [id] | _ => [] end) deps
+  | KComp _ _ deps => flat_map (fun d => match d with DLib id => [id] | _ => [] end) deps
   | _ => []
   end.
 
@@ -94,7 +94,7 @@ Inductive entry :=
 | EBin (name : bytes)              (* the compiled binary of that cargo target *)
 | ELink (target : bytes)
 | EText (t : bytes)
-| EPackageToml (buildpack_uri : bytes) (deps : list bytes).     (* package.toml as a document *)
+| EPackageToml (buildpack_uri os : bytes) (deps : list bytes).  (* package.toml as a document: uri, platform os, dependency uris *)
 
 Definition libcnb_package_toml : bytes := b "[buildpack]
 uri = "".""
@@ -130,7 +130,7 @@ Section Tree.
             end
         | None => []
         end
-    | KComp deps => [(b "buildpack.toml", ESameToml); (b "package.toml", EPackageToml (b ".") (map (dep_uri i x) deps))]
+    | KComp u o deps => [(b "buildpack.toml", ESameToml); (b "package.toml", EPackageToml u o (map (dep_uri i x) deps))]
     | KOther => []
     end.
 End Tree.
